@@ -28,15 +28,29 @@ def slOp (cxx : Bool) (s : Sline) (tok : String) : Option (Sline × String) :=
       pure (r.1, slShow (toString r.2) r.1)
   | 'n' => do
       let d ← parseBytes? arg
+      if s.cap > 16777216 then
+        -- a buffer of which only the first bytes are materialised: the C-width function
+        let r := s.newdataC d d.length
+        pure (r.1, slShow (if cxx then "v" else toString r.2) r.1)
+      else
       let r := s.newdata d d.length
       pure (r.1, slShow (if cxx then "v" else toString r.2) r.1)
+  | 'Z' => do
+      -- Z<size>:<hex>  igris::sline::newdata(data, size_t size)
+      match arg.splitOn ":" with
+      | [ns, hx] => do
+        let n ← ns.toNat?
+        let d ← parseBytes? hx
+        let r := s.newdataSz d n
+        pure (r.1, slShow "v" r.1)
+      | _ => none
   | 'N' => do
       -- N<int>:<hex>  sline_newdata(data, len) with the int length as given
       match arg.splitOn ":" with
       | [ns, hx] => do
         let n ← ns.toInt?
         let d ← parseBytes? hx
-        let r := s.newdataI d n
+        let r := if s.cap > 16777216 then s.newdataC d n else s.newdataI d n
         pure (r.1, slShow (if cxx then "v" else toString r.2) r.1)
       | _ => none
   | 'c' => let r := s.clear; some (r, slShow "0" r)
@@ -241,7 +255,9 @@ def stepLine (_ : Unit) (line : String) : Unit × String :=
     | "sl" :: var :: cap :: ops => do
         let cxx ← variant? var
         let cap ← cap.toNat?
-        let rs ← slRun cxx (Sline.init cap) ops
+        -- a buffer of 2^24 bytes and more: only its first 64 bytes are materialised (the ops keep the line short)
+        let s0 : Sline := if cap > 16777216 then ⟨List.replicate 64 0, cap, 0, 0, false⟩ else Sline.init cap
+        let rs ← slRun cxx s0 ops
         pure (if rs.isEmpty then "-" else " ".intercalate rs)
     | ["rl", var, cap, depth, keys] => do
         let cxx ← variant? var
